@@ -1,15 +1,15 @@
-//! Valid sample values (NLRI per family, next hops, path attributes, negotiated codecs) built only
-//! from the public API of `rustybgp_packet`.  Every NLRI sample round-trips through
-//! `PeerCodec::encode_to` -> `PeerCodec::try_parse` -> `validate_message` (see
-//! `src/bin/samples_selftest.rs`).
-//!
-//! Conventions that keep the samples round-trippable with the codec as it is today:
-//!  * prefixes carry no bits beyond their mask (the decoder zero-fills what it does not read);
-//!  * attribute values stay below 256 bytes (the decoder keeps the wire EXTENDED_LENGTH flag bit in
-//!    `Attribute::flags()`, so a longer value would not compare equal to its source);
-//!  * `nexthop_for` picks the next-hop address family that `mp_reach_encode` writes unpadded (an
-//!    IPv4 next hop is zero-padded to 16 bytes for every family except IPv4 unicast (NEXT_HOP
-//!    attribute), multicast, VPN, SR-Policy and EVPN, and then reads back as an IPv6 address).
+// Valid sample values (NLRI per family, next hops, path attributes, negotiated codecs) built only
+// from the public API of `rustybgp_packet`.  Every NLRI sample round-trips through
+// `PeerCodec::encode_to` -> `PeerCodec::try_parse` -> `validate_message` (see
+// `src/bin/samples_selftest.rs`).
+//
+// Conventions that keep the samples round-trippable with the codec as it is today:
+//  * prefixes carry no bits beyond their mask (the decoder zero-fills what it does not read);
+//  * attribute values stay below 256 bytes (the decoder keeps the wire EXTENDED_LENGTH flag bit in
+//    `Attribute::flags()`, so a longer value would not compare equal to its source);
+//  * `nexthop_for` picks the next-hop address family that `mp_reach_encode` writes unpadded (an
+//    IPv4 next hop is zero-padded to 16 bytes for every family except IPv4 unicast (NEXT_HOP
+//    attribute), multicast, VPN, SR-Policy and EVPN, and then reads back as an IPv6 address).
 
 use std::net::{IpAddr, Ipv4Addr, Ipv6Addr};
 
